@@ -372,3 +372,7 @@ def run(ctx):
     ctx.guarded(r, r5_model_space)
     r = ctx.rule("R6", "an orientation-reversing world_to_model flips the winding (sign of the determinant reaches the triangle order)", 1)
     ctx.guarded(r, r6_orientation)
+    from .. import qef as QF
+
+    r = ctx.rule("R7", "QEF algebra: add_intersection accumulates n n^T, n (n . p), (n . p)^2 and (p, 1) for the unit normal; merged solvers add; solve minimises about the mass point (right-hand side A^T b - A^T A c, position = solution + c) and reports E(x) at the position it returns", 12)
+    ctx.guarded(r, QF.r_qef_algebra)
